@@ -115,6 +115,13 @@ CHECKS = {
                      'the close handshake, and the encoder for all three length encodings; CrossHair additionally explores payload '
                      'contents and masking key on the decoder kernel (bug-hunting: its conditions do not close and are listed as not discharged)',
                 note='trusted: z3/pathex, CrossHair, the RFC 6455 reference in harness/c17.py; payloads up to 65537 bytes, valid UTF-8 text'),
+    'C18': dict(engine='pathex+crosshair', technique=TECH_XH, ref='DESIGN.md 4/C18',
+                text='bounded symbolic execution of the real line splitter / Line component and of IRC message construction: byte '
+                     'streams over a token alphabet (CR, LF, CRLF, empty lines, a 2-byte UTF-8 character) with cut positions as z3 '
+                     'Ints, two sockets interleaved byte by byte in server mode, every irc.commands constructor and Message on hostile '
+                     'argument / command / prefix strings (refused, or exactly one CRLF line that parses back); CrossHair on splitLines '
+                     'and Message.__str__ with symbolic bytes/str contents',
+                note='trusted: z3/pathex, CrossHair, the reference split in harness/c18.py; round trip demanded only for arguments the IRC grammar can represent'),
 }
 
 NOT_YET = {
